@@ -78,7 +78,13 @@ func program(m *procbuilder.Machine) []string {
 			}
 			ops = append(ops, gen.Operand(f, 0))
 		}
-		if usable && len(prog) < (1<<m.O)-1 {
+		// the program memory is the ROM (ha), the RAM (vn) or the larger of the two (hy)
+		room := 1 << m.O
+		switch {
+		case m.Modes[0] == "vn", m.Modes[0] == "hy" && m.L > m.O:
+			room = 1 << m.L
+		}
+		if usable && len(prog) < room-1 {
 			prog = append(prog, strings.TrimSpace(name+" "+strings.Join(ops, " ")))
 		}
 	}
@@ -210,6 +216,28 @@ func configs(tier string, seed int64) []cfg {
 			cs = append(cs, c)
 		}
 	}
+	// 1b: one opcode at a time in the RAM-resident execution modes (the per-opcode templates guard
+	// their side processes with the execute phase only there)
+	for _, op := range all {
+		if _, isSO := soOf[op]; isSO || strings.Contains(op, "fxps") || strings.Contains(op, "flpe") {
+			continue
+		}
+		rs := uint8(8)
+		switch {
+		case op == "addf" || op == "multf" || op == "divf" || op == "jgt0f" || op == "expf":
+			rs = 32
+		case strings.HasSuffix(op, "f16") || strings.Contains(op, "fps16"):
+			rs = 16
+		}
+		for _, mode := range []string{"vn", "hy"} {
+			c := base("single-"+mode+":"+op, rs, []string{op, "j"})
+			c.Mode, c.L = mode, 4
+			if op == "tsp" {
+				c.Threaded = 1
+			}
+			cs = append(cs, c)
+		}
+	}
 	// 2: opcodes sharing helper registers
 	pairs := [][]string{{"cmpr", "jcmpl"}, {"cmpr", "cmprlt", "cmpv", "jcmpl", "jcmpo", "jcmprio"}, {"i2r", "i2rw", "sicv3"}, {"i2r", "sic", "sicv2"}, {"r2o", "r2owa"}, {"r2o", "r2owa", "r2owaa"},
 		{"i2rw", "r2owa", "add", "rset", "j"}, {"adc", "sbc", "clc", "cset", "incc", "cilc", "rsc", "mulc"}, {"addp", "multp", "divp"}, {"addf", "multf", "divf"}, {"addf16", "multf16", "divf16"},
@@ -230,6 +258,11 @@ func configs(tier string, seed int64) []cfg {
 		c.R, c.N, c.M = 3, 3, 3
 		c.Name += "→R3"
 		cs = append(cs, c)
+		for _, mode := range []string{"vn", "hy"} {
+			c := base(fmt.Sprintf("group%d-%s:%s", i, mode, strings.Join(p, "+")), rs, append(append([]string{}, p...), "j"))
+			c.Mode, c.L = mode, 4
+			cs = append(cs, c)
+		}
 	}
 	// 3: execution modes
 	for _, mode := range []string{"vn", "hy"} {
@@ -315,8 +348,12 @@ func configs(tier string, seed int64) []cfg {
 		c.L = uint8(1 + rng.IntN(4))
 		c.O = uint8(2 + rng.IntN(4))
 		c.Procs = 1 + rng.IntN(2)
+		c.Mode = []string{"ha", "ha", "vn", "hy"}[rng.IntN(4)]
+		if rng.IntN(5) == 0 {
+			c.Threaded = 1 + rng.IntN(3)
+		}
 		for _, o := range ops {
-			if o == "tsp" {
+			if o == "tsp" && c.Threaded == 0 {
 				c.Threaded = 1
 			}
 		}
